@@ -313,8 +313,12 @@ static bool case_c14(const Plan& pl0, Stats& st, Violation& v) {
   if (!pl.faults.empty()) {
     run_ref();
     const OpResult* r = find_res(ref, pl.faults[0].op);
-    if (r && r->allocs > 0) { ft = pl.faults[0]; ft.alloc = pl.faults[0].alloc % r->allocs; RunCtl cf = ctl; cf.fault = ft; RunOut rf; exec_seq(pl, cf, rf); ref = std::move(rf); ++st.evals; ++st.fault_runs; }
+    // The reference stays fault-free: whether and where the fault fires in the task may legitimately differ from the
+    // main thread (e.g. a thread_local scratch buffer that already has capacity there). What must hold is that the
+    // OTHER tasks are unaffected; the faulted task is compared up to the faulted operation only.
+    if (r && r->allocs > 0) { ft = pl.faults[0]; ft.alloc = pl.faults[0].alloc % r->allocs; ++st.fault_runs; }
   }
+  int64_t first_unguarded = -1; Plan first_exp;
   for (int rep = 0; rep < 2; ++rep) {
     sim_status_run(g_cur_run, 6 + (uint64_t)rep, 0, 0);
     rt_set_env(env_twin(pl.env) + (uint64_t)rep);
@@ -346,18 +350,29 @@ static bool case_c14(const Plan& pl0, Stats& st, Violation& v) {
     }
     // detector A: equivalence with sequential execution
     RunOut inter; inter.setup = std::move(setup); inter.tasks = std::move(outs);
-    std::string d = cmp_runs(ref, inter, false);
+    RunOut refv = ref;
+    if (ft.op >= 0) {
+      int ftask = pl.ops[(size_t)ft.op].task;
+      auto cut = [&](std::vector<OpResult>& v) { size_t k = 0; while (k < v.size() && v[k].op < ft.op) ++k; v.resize(k); };
+      if (ftask >= 0 && ftask < pl.ntasks) { cut(refv.tasks[(size_t)ftask].res); cut(inter.tasks[(size_t)ftask].res); }
+    }
+    std::string d = cmp_runs(refv, inter, false);
     if (!d.empty()) { v.cls = "differs-from-sequential"; v.sig = v.cls; v.detail = "operations on independent objects returned something else when interleaved with other threads than when run one after another: " + d; v.plan = exp; return true; }
     // detector B: static storage written by library code
-    if (!cc.monitor_static || cc.static_diff_off < 0) return false;
+    if (!cc.monitor_static) return false;
+    if (cc.static_diff_off < 0) { if (rep == 0) return false; break; }   // rep 1 without a change: the write of rep 0 was a one-time write
     char b[240];
-    if (cc.unguarded_off >= 0) {
-      snprintf(b, sizeof b, "a task wrote library static storage at offset 0x%" PRIx64 " of libclipsim.so outside any function-local-static guard (unsynchronised initialisation or mutable global state)", (uint64_t)cc.unguarded_off);
-      v.cls = "static-write"; v.sig = "static-write unguarded"; v.detail = b; v.plan = exp; return true;
-    }
-    if (rep == 0) { st.static_rebaselined += cc.rebaselined; continue; }   // guarded one-time initialisation: must not recur
+    if (rep == 0) { st.static_rebaselined += cc.rebaselined; first_unguarded = cc.unguarded_off; first_exp = exp; continue; }   // changed once: execute the same plan again
+    // it changed again: mutable state outside caller-owned objects, however it is synchronised
     snprintf(b, sizeof b, "library static storage at offset 0x%" PRIx64 " of libclipsim.so changes on every execution (mutable state outside caller-owned objects)", (uint64_t)cc.static_diff_off);
     v.cls = "static-write"; v.sig = "static-write recurring"; v.detail = b; v.plan = exp; return true;
+  }
+  if (first_unguarded >= 0) {
+    // written once, and not under a magic-static / call_once / mutex guard: racy lazy initialisation or a correct lock-free
+    // one - the driver lets ThreadSanitizer arbitrate
+    char b[240];
+    snprintf(b, sizeof b, "a task wrote library static storage at offset 0x%" PRIx64 " of libclipsim.so once, outside any function-local-static / call_once / mutex guard (unsynchronised lazy initialisation?)", (uint64_t)first_unguarded);
+    v.cls = "static-write"; v.sig = "static-write unguarded"; v.detail = b; v.plan = first_exp; return true;
   }
   return false;
 }
